@@ -39,6 +39,8 @@ impl Histogram {
 
     /// Records an occurrence of a value in the histogram.
     pub fn record(&self, value: u32) {
+        #[cfg(metrique_verif)]
+        detsim::yield_point();
         self.inner
             .add(value as u64, 1)
             .expect("known within bounds because of type");
@@ -49,6 +51,8 @@ impl Histogram {
     /// During the iteration, the histogram counts are atomically reset to zero.
     #[cfg_attr(not(feature = "metrics-rs-024"), allow(unused))]
     pub(crate) fn drain(&self) -> Vec<Bucket> {
+        #[cfg(metrique_verif)]
+        detsim::yield_point();
         self.inner
             .drain()
             .into_iter()
